@@ -16,9 +16,10 @@ from ..workloads import configs, data as D
 ID = 'C01'
 LEVEL = 'exploration'
 RULE = ('cases = estimator x option variant x seeded well-formed dataset; per '
-        'fitted model query triples of 9 classes (training rows, gaussian, '
+        'fitted model query triples of 10 classes (training rows, gaussian, '
         'duplicates, 1-ulp neighbours, far outliers, magnitudes 1e-100..1e100 '
-        'per triple and per point, integer, axis-aligned). An evaluation is '
+        'per triple and per point, integer, axis-aligned, differences in the '
+        'null space of a rank-deficient L). An evaluation is '
         'one axiom judged on one monitored pair_distance / pair_score / '
         'metric_fun return event. distinct_nontrivial counts distinct '
         '(estimator, option variant, dataset fingerprint, query class) whose '
@@ -101,9 +102,14 @@ def run_case(spec, j):
   metric = est.get_metric()
   cfg_key = repr(sorted((k, repr(v)[:20]) for k, v in
                         (spec.get('params') or {}).items()))
-  for qc in D.QUERY_CLASSES:
+  for qc in D.QUERY_CLASSES + ['nullspace']:
     rng = rng_for('query', spec['qseed'], qc)
-    T = D.query_triples(rng, f.X, spec['nq'], qc)
+    if qc == 'nullspace':
+      T = D.nullspace_triples(rng, f.X, L, spec['nq'])
+      if T is None:
+        continue
+    else:
+      T = D.query_triples(rng, f.X, spec['nq'], qc)
     x, y, z = T[:, 0], T[:, 1], T[:, 2]
     n = len(T)
     A = np.empty((4 * n, 2, d))
@@ -158,13 +164,21 @@ def run_case(spec, j):
       j.distinct(spec['est'], cfg_key, spec['ds']['seed'], qc)
     # the closure (M-CLOSURE), on a subset
     m = min(n, 12 if spec['nq'] <= 30 else 60)
-    sym_ok = ident_ok = tri_ok = nonneg_ok = True
+    sym_ok = ident_ok = tri_ok = nonneg_ok = fin_ok = True
     bad = None
     for i in range(m):
       with np.errstate(all='ignore'):
         dxy, dyx = metric(x[i], y[i]), metric(y[i], x[i])
         dyz, dxz = metric(y[i], z[i]), metric(x[i], z[i])
         dxx = metric(x[i], x[i])
+        sq = metric(x[i], y[i], squared=True)
+      if in_domain and not all(np.isfinite(v) for v in
+                               (dxy, dyx, dyz, dxz, dxx, sq)):
+        fin_ok = False
+        bad = ('finite', i, dxy, dyz, dxz, sq)
+      if sq < 0:
+        nonneg_ok = False
+        bad = ('nonneg-squared', i, sq)
       for v in (dxy, dyx, dyz, dxz, dxx):
         if not (v >= 0 or v != v):
           nonneg_ok = False
@@ -186,6 +200,8 @@ def run_case(spec, j):
     j.check('C01.closure.identity', ident_ok, dict(det, bad=bad))
     j.check('C01.closure.triangle', tri_ok, dict(det, bad=bad))
     j.check('C01.closure.nonneg', nonneg_ok, dict(det, bad=bad))
+    if in_domain:
+      j.check('C01.closure.finite', fin_ok, dict(det, bad=bad))
     if j.sample is None and qc == 'magnitude':
       j.sample = {'est': spec['est'], 'params': spec.get('params'),
                   'L_shape': L.shape, 'query_class': qc,
